@@ -684,9 +684,9 @@ def deserialize_problem(combinator: Combinator[T], serialized: str, **kwargs: An
     tmp = combinator.deserialize(env, serialized, 0)
     if tmp is None:
         return None
-    assert tmp is not None
     problem = tmp[1]
-    assert len(problem) == 1
+    if len(problem) != 1:
+        raise ValueError("the combinator decoded the text into more than one top-level value")
     return problem[0]
 
 
